@@ -42,7 +42,7 @@ pub fn first_fail(group: &str, seed: u64) -> Option<String> {
     let mut t = Tally::new();
     match group {
         "field" => field::field_layer(&mut t, seed),
-        "sqrt" => field::sqrt_all(&mut t),
+        "sqrt" => { field::sqrt_all(&mut t); curve::recover(&mut t); },
         _ => return None,
     }
     t.fails.into_iter().next()
@@ -52,7 +52,7 @@ pub fn run(group: &str, seed: u64) -> i32 {
     let mut t = Tally::new();
     match group {
         "field" => field::field_layer(&mut t, seed),
-        "sqrt" => field::sqrt_all(&mut t),
+        "sqrt" => { field::sqrt_all(&mut t); curve::recover(&mut t); },
         "ext" => field::ext_all(&mut t, seed),
         "poly" => poly::poly_all(&mut t, seed),
         "fft" => poly::fft_all(&mut t, seed),
